@@ -9,6 +9,7 @@
 #include <string.h>
 #include <sys/syscall.h>
 #include <sys/types.h>
+#include <sys/resource.h>
 #include <sys/wait.h>
 #include <time.h>
 #include <unistd.h>
@@ -58,6 +59,44 @@ int main(int argc, char **argv) {
     int st; waitpid(p, &st, 0);
     struct timespec ts = {0, 20000000}; nanosleep(&ts, NULL);
     _exit(n);
+  } else if (!strcmp(c, "rlimits")) {
+    // getrlimit of every resource, one JSON line on stdout
+    char buf[2048]; int n = 0;
+    n += snprintf(buf + n, sizeof buf - n, "{");
+    for (int r = 0; r < 16; r++) {
+      struct rlimit64 { unsigned long long cur, max; } rl;
+      if (syscall(SYS_prlimit64, 0, r, NULL, &rl) != 0) continue;
+      n += snprintf(buf + n, sizeof buf - n, "%s\"%d\":[%llu,%llu]", n > 1 ? "," : "", r, rl.cur, rl.max);
+    }
+    n += snprintf(buf + n, sizeof buf - n, "}\n");
+    write(1, buf, n);
+    _exit(0);
+  } else if (!strcmp(c, "emit")) {
+    // emit TOTAL bytes to stdout in chunks of CHUNK; after the first AFTER bytes pause PAUSE ms once;
+    // exit 0 when everything was written, 90 + errno class otherwise
+    long total = atol(argv[2]), chunk = atol(argv[3]), after = argc > 4 ? atol(argv[4]) : -1, pause_ms = argc > 5 ? atol(argv[5]) : 0;
+    char *b = malloc(chunk > 0 ? chunk : 1); memset(b, 'x', chunk > 0 ? chunk : 1);
+    signal(SIGPIPE, SIG_IGN);
+    long done = 0; int paused = 0;
+    while (done < total) {
+      if (!paused && after >= 0 && done >= after) { struct timespec ts = {pause_ms / 1000, (pause_ms % 1000) * 1000000L}; nanosleep(&ts, NULL); paused = 1; }
+      long w = total - done < chunk ? total - done : chunk;
+      ssize_t k = write(1, b, w);
+      if (k < 0) { _exit(errno == EPIPE ? 91 : errno == EAGAIN ? 92 : 93); }
+      done += k;
+    }
+    _exit(0);
+  } else if (!strcmp(c, "fsize")) {
+    // grow a file in the current directory to N bytes
+    long total = atol(argv[3]); int fd = open(argv[2], O_CREAT | O_WRONLY | O_TRUNC, 0600);
+    if (fd < 0) _exit(94);
+    char b[4096]; memset(b, 'y', sizeof b); long done = 0;
+    while (done < total) { ssize_t k = write(fd, b, sizeof b); if (k < 0) _exit(errno == EFBIG ? 95 : 96); done += k; }
+    _exit(0);
+  } else if (!strcmp(c, "mem")) {
+    long total = atol(argv[2]); char *m = malloc(total); if (!m) _exit(97);
+    for (long i = 0; i < total; i += 4096) m[i] = 1;
+    _exit(m[total / 2] == 1 ? 0 : 0);
   } else if (!strcmp(c, "hello")) {
     write(1, "hello\n", 6); _exit(0);
   }
